@@ -81,6 +81,48 @@ def ixval(ix, env):
     raise ValueError(t)
 
 
+class LP:
+    """Exact carrier for wide-range log weights: sum_k coef_k * e**k (integer k, Fraction coef >= 0)."""
+    __slots__ = ("t",)
+
+    def __init__(self, t=None):
+        self.t = {k: v for k, v in (t or {}).items() if v != 0}
+
+    @staticmethod
+    def of(x):
+        return x if isinstance(x, LP) else LP({0: Fraction(x)})
+
+    def __add__(self, o):
+        o = LP.of(o)
+        t = dict(self.t)
+        for k, v in o.t.items():
+            t[k] = t.get(k, 0) + v
+        return LP(t)
+    __radd__ = __add__
+
+    def __mul__(self, o):
+        o = LP.of(o)
+        t = {}
+        for k1, v1 in self.t.items():
+            for k2, v2 in o.t.items():
+                t[k1 + k2] = t.get(k1 + k2, 0) + v1 * v2
+        return LP(t)
+    __rmul__ = __mul__
+
+    def __eq__(self, o):
+        return self.t == LP.of(o).t
+
+    def __hash__(self):
+        return hash(tuple(sorted(self.t.items())))
+
+    def log(self):
+        """log of the value by the max-shifted form (exact up to float64 rounding of the result)"""
+        if not self.t:
+            return float("-inf")
+        cmax = max(self.t)
+        return cmax + math.log(sum(float(v) * math.exp(k - cmax) for k, v in self.t.items()))
+
+
 class Oracle:
     """Forward-mode (Leibniz) derivative in the (add, mul) semiring over Fractions: for every node,
     value and sparse gradient {(lid, index tuple): coefficient}.  Independent of the reverse sweep."""
@@ -88,8 +130,16 @@ class Oracle:
     def __init__(self, case):
         self.sz = case["sz"]
         self.leaves = case["leaves"]
-        self.tabs = {lid: np.vectorize(Fraction, otypes=[object])(l["data"]) if l["data"].size else l["data"]
-                     for lid, l in self.leaves.items()}
+        self.tabs = {}
+        for lid, l in self.leaves.items():
+            if "logoff" in l:      # value = mantissa * e**offset, kept exactly as a Laurent polynomial in e
+                flat = [LP({int(c): Fraction(m)}) for m, c in zip(np.asarray(l["data"]).reshape(-1).tolist(),
+                                                               np.asarray(l["logoff"]).reshape(-1).tolist())]
+                arr = np.empty(len(flat), dtype=object)
+                arr[:] = flat
+                self.tabs[lid] = arr.reshape(np.asarray(l["data"]).shape)
+            else:
+                self.tabs[lid] = np.vectorize(Fraction, otypes=[object])(l["data"]) if l["data"].size else l["data"]
 
     def leaf_at(self, lid, idx):
         return self.tabs[lid][idx] if idx else self.tabs[lid][()]
@@ -197,7 +247,7 @@ def build_funsor(case):
                 for lid in t[2]:
                     in_cat[lid] = t[1]
     for lid, l in case["leaves"].items():
-        leaves[lid] = Tensor(to_impl_data(l["data"], sr),
+        leaves[lid] = Tensor(to_impl_data(l["data"], sr) + (l["logoff"] if "logoff" in l else 0.0),
                              OrderedDict((pn if in_cat.get(lid) == n else vname(n), Bint[s]) for n, s in l["axes"]))
 
     def ixf(ix, lsize):
@@ -1754,6 +1804,154 @@ def scatter_stream(ctx, n):
 
 
 
+# ----------------------------------------------------------------------------------------------
+# wide-range log weights: the (logaddexp, add) semiring far below exp's underflow
+# ----------------------------------------------------------------------------------------------
+
+OFFSETS = [0, -30, -300, -800, -2000]
+
+
+def widen(rng, case):
+    """Give every leaf of a log-semiring case log-weights  log(mantissa) + offset  with offsets per leaf
+    and per element of its first axis; mantissa 0 = a -inf cell."""
+    for l in case["leaves"].values():
+        shape = np.asarray(l["data"]).shape
+        off = np.full(shape, rng.choice(OFFSETS), dtype=np.float64)
+        if shape and rng.random() < 0.6:
+            per = np.array([rng.choice(OFFSETS) for _ in range(shape[0])], dtype=np.float64)
+            off = off + per.reshape((shape[0],) + (1,) * (len(shape) - 1))
+        l["logoff"] = off
+    case.pop("cat_part_name", None)
+    case["sr"] = "logaddexp-add"
+    case["opt"] = None          # plain path: the optimizer's einsum kernel is KF-logeinsum-underflow's region (C10)
+    return case
+
+
+def hmm_case(rng):
+    """3-step homogeneous HMM: init(z0) * prod_t trans(z_t, z_t+1) * obs_t(z_t+1), summed over all states;
+    the transition tensor is ONE leaf read under three renamings; observation log-likelihoods about -300."""
+    n = rng.choice([2, 3])
+    sz = {0: n, 1: n, 2: n, 3: n, 4: n, 5: n}
+    leaves = {0: dict(axes=[(4, n), (5, n)], data=gen_data(rng, (n, n), nonzero=rng.random() < 0.6)),
+              1: dict(axes=[(0, n)], data=gen_data(rng, (n,), nonzero=True))}
+    e = ("acc", 1, [])
+    for t in range(3):
+        leaves[2 + t] = dict(axes=[(t + 1, n)], data=gen_data(rng, (n,), nonzero=True))
+        e = ("mul", ("mul", e, ("acc", 0, [(4, ("var", t)), (5, ("var", t + 1))])), ("acc", 2 + t, []))
+    order = rng.choice([[0, 1, 2, 3], [3, 2, 1, 0]])
+    root = e
+    if rng.random() < 0.5:
+        root = ("sum", sorted(order), e)
+    else:
+        for v in order:
+            root = ("sum", [v], root)
+    case = dict(sz=sz, leaves=leaves, expr=root, sr="logaddexp-add", opt=None)
+    widen(rng, case)
+    for t in range(3):      # observation log-likelihoods around -300 (plus whatever widen added per state)
+        case["leaves"][2 + t]["logoff"] = case["leaves"][2 + t]["logoff"] * 0 + rng.choice([-300.0, -330.0, -800.0])
+    return case
+
+
+def check_wide(ctx, case, label="wide"):
+    """Log-space comparison against the exact oracle (Laurent polynomials in e, logs by the max-shifted
+    form): finite iff the oracle is finite; relative 1e-9 on the log value."""
+    r = run_impl(case)
+    if r["status"] == "declined":
+        ctx.count(f"{label}:declined:{r['why']}")
+        return "declined"
+    F, fwd, grads = Oracle(case).run(case["expr"])
+    if F:
+        return "skipped"
+
+    def close(got, want):
+        if want == float("-inf") or got == float("-inf"):
+            return got == want
+        return got == got and abs(got - want) <= 1e-9 * max(1.0, abs(want))
+
+    def bad(what, lid, idx, want, got):
+        ctx.fail("input", "C11.log-range-" + what,
+                 witness=dict(case=jsonable(case), logoff={str(k): np.asarray(l["logoff"]).tolist()
+                                                          for k, l in case["leaves"].items()},
+                              leaf=lid, index=list(idx)),
+                 expected=str(want), got=str(got), python=WIDE_SNIPPET.format(
+                     case=jsonable(case), off={k: np.asarray(l["logoff"]).tolist() for k, l in case["leaves"].items()},
+                     lid=lid, idx=tuple(idx), want=want))
+        return "wrong"
+    ft = futil.table(r["fwd"], [])
+    want_f = LP.of(fwd[()]).log()
+    if ft is None or not close(float(ft), want_f):
+        return bad("forward", -1, (), want_f, None if ft is None else float(ft))
+    lowest = 0.0
+    for lid, x in r["leaves"].items():
+        axes = case["leaves"][lid]["axes"]
+        g = r["bwd"][x]
+        try:
+            t = futil.table(g, [(vname(nm), s_) for nm, s_ in axes])
+        except (KeyError, ValueError) as ex:
+            return bad("adjoint-inputs", lid, (), "inputs within the leaf's axes", str(ex))
+        if t is None:
+            return "declined"
+        for idx in itertools.product(*[range(s_) for _, s_ in axes]):
+            want = LP.of(grads[lid].get(idx, Fraction(0))).log()
+            got = float(t[idx])
+            if not close(got, want):
+                return bad("adjoint", lid, idx, want, got)
+            if want != float("-inf"):
+                lowest = min(lowest, want)
+    ctx.count(f"{label}:lowest-adjoint:" + ("below-745" if lowest < -745 else "above-745"))
+    return "ok"
+
+
+WIDE_SNIPPET = """
+import sys, itertools
+sys.path.insert(0, "/verif")
+import numpy as np
+from fv.harness import c11
+case = c11.case_from_json({case!r})
+for k, v in {off!r}.items():
+    case["leaves"][int(k)]["logoff"] = np.array(v, dtype=np.float64)
+r = c11.run_impl(case)
+assert r["status"] == "value", r
+lid, idx, want = {lid!r}, {idx!r}, {want!r}
+if lid < 0:
+    got = float(c11.futil.table(r["fwd"], []))
+else:
+    axes = case["leaves"][lid]["axes"]
+    got = float(c11.futil.table(r["bwd"][r["leaves"][lid]], [(c11.vname(n), s) for n, s in axes])[idx])
+print("log value: funsor", got, " exact", want)
+FAILS = not (got == want or (np.isfinite(got) and np.isfinite(want) and abs(got - want) <= 1e-9 * max(1.0, abs(want))))
+"""
+
+
+def wide_stream(ctx, n_random, n_hmm):
+    rng = ctx.rng
+    done = 0
+    tries = 0
+    while done < n_random and tries < 20 * n_random:
+        tries += 1
+        c = gen_case(rng, ctx.tier, stream="clean")
+        if free_vars(c["expr"], c["leaves"]) or any(t[0] == "prod" for t in subterms(c["expr"])):
+            continue            # closed roots (log-space comparison without marginalising), no plates
+        widen(rng, c)
+        multi = any(sum(1 for t in subterms(c["expr"]) if t[0] == "acc" and t[1] == lid) +
+                    sum(t[2].count(lid) for t in subterms(c["expr"]) if t[0] == "cat") > 1 for lid in c["leaves"])
+        st = check_wide(ctx, c)
+        ctx.count(f"wide:{st}" + (":multi-occurrence-leaf" if multi else ""))
+        if st == "wrong":
+            return
+        if st == "ok":
+            done += 1
+            ctx.case(nontrivial_key=("wide", shape_key(c)) if multi else None)
+    for _ in range(n_hmm):
+        c = hmm_case(rng)
+        st = check_wide(ctx, c, label="hmm")
+        ctx.count(f"hmm:{st}")
+        if st == "wrong":
+            return
+        if st == "ok":
+            ctx.case(nontrivial_key=("hmm", shape_key(c)))
+
+
 def nested_cases(rng):
     """Nested reductions that reuse the same variable name at 2-3 levels (an inner binder named like an
     outer one that is still free in between), in both semirings, plain and through apply_optimizer — the
@@ -1855,8 +2053,10 @@ def correspond(ctx):
     roundtrip_stream(ctx, m)
     identity_stream(ctx, 1 if ctx.tier == "quick" else 6)
     scatter_stream(ctx, 20 if ctx.tier == "quick" else 100)
+    wide_stream(ctx, 120 if ctx.tier == "quick" else 1500, 30 if ctx.tier == "quick" else 300)
     ctx.assumptions.append("float64 arithmetic on small integers / dyadic rationals is exact; the log semiring, and (add,mul) terms containing a product-reduce (safediv = multiplication by a rounded reciprocal), are compared in linear space with rtol 1e-9; magnitudes beyond 2**50 with rtol 1e-12")
     ctx.assumptions.append("with apply_optimizer the leaves are the tensors of the optimizer's output (its unfold pass evaluates Subs(Tensor) eagerly, outside the tape); the output is re-read into the model's syntax modulo __BOUND suffixes exactly as AdjointTape.adjoint un-mangles names")
+    ctx.assumptions.append("wide-range log weights (offsets 0/-30/-300/-800/-2000 per leaf and per first-axis element, -inf cells; 3-step homogeneous HMM with one shared transition leaf) are compared in log space against an exact oracle (Laurent polynomials in e, logs by the max-shifted form): finite iff the oracle is finite, rtol 1e-9 on the log value; plain path only — the optimizer's log-einsum kernel is the region of the open KF-logeinsum-underflow (C10)")
     ctx.assumptions.append("dag_adjoint_sound: the sweep over the DAG tape (argument indices, shared nodes accumulate before they are popped) returns the derivative of the unfolded root; the driver's DAG is the hash-consing of the term (structurally equal sub-terms = one node); tie to the real tape: number/kind of recorded entries and pop order (counted), and the adjoint accumulated at every node when popped = funsor's adjoint of that lazy node (gated, incl. shared nodes); un-mangling and the eager-value keys of the real tape are exercised by correspondence only")
     ctx.assumptions.append("adjoint_sound covers every node kind of the model (direct / Subs / Cat leaves, ⊕, ⊗, sum- and product-reduce); the proved sweep is tree-shaped — the tape's DAG sharing and its keying of adjoint_values by un-mangled eager values are exercised by correspondence only (aliasing block; dedicated streams tape-key-collision, binder-free-clash, opt-rebinding)")
     ctx.assumptions.append("clean-stream side conditions beyond Lean's `Good` (implementation-specific, each with its dedicated stream or owner): Cat with part_name == name, with the optimizer every variable bound once and no repeated identical Reduce (KF-shared-binder-unfold), no pure renaming onto a surviving axis of the same leaf (KF-adjoint-scatter-number-shortcut), no root input used as a substitution value (funsor's renaming convention, test_adjoint_subs_tensor_rename)")
